@@ -38,3 +38,13 @@ pub broadcast axiom fn axiom_btreemap_ext(a: BTreeMap<String, Option<String>>, b
 // String keys of a BTreeMap: Ord on String is a total order consistent with Eq
 pub broadcast axiom fn axiom_string_cmp()
     ensures #[trigger] key_obeys_cmp_spec::<String>();
+// HashSet::extend / clone (vstd has no specification): union with the items of the argument; structural copy
+pub uninterp spec fn into_set<I: IntoIterator>(it: I) -> Set<I::Item>;
+pub broadcast axiom fn axiom_into_set_hashset(h: HashSet<String>)
+    ensures #[trigger] into_set(h) == h@;
+pub assume_specification<T, S, A, I>[ <HashSet<T, S, A> as Extend<T>>::extend::<I> ](s: &mut HashSet<T, S, A>, it: I)
+    where T: Eq + std::hash::Hash, S: std::hash::BuildHasher, A: std::alloc::Allocator, I: IntoIterator<Item = T>
+    ensures final(s)@ == old(s)@.union(into_set(it));
+pub assume_specification<T, S, A>[ <HashSet<T, S, A> as Clone>::clone ](s: &HashSet<T, S, A>) -> (r: HashSet<T, S, A>)
+    where T: Clone, S: Clone, A: std::alloc::Allocator + Clone
+    ensures r@ == s@;
